@@ -14,3 +14,5 @@ import RSVerif.Properties.C03
 #print axioms RS.flat_butterflies_refine
 #print axioms RS.flat_transforms_refine
 #print axioms RS.source_engine_loops_are_model
+#print axioms RS.source_kernels_agree
+#print axioms RS.source_kernels_are_field_butterflies
